@@ -10,7 +10,7 @@ LEVEL = "exploration"
 RULE = ("cases are well-typed programs of the core statement language built by a type-directed Hypothesis generator "
         "(<= 80 statements, nesting <= 5: if / else-if / else, while, from..to/through with literal, variable or compound-expression step and "
         "anonymous / named / colliding counter, break, continue, return, functions with parameters, recursion through self(), "
-        "int/bool/str expressions, list indexing, division) plus an enumerated family of small control-flow skeletons, a naming family (every word of the grammar inside a name) and `&&` / `||` between an effectful call and a boolean literal on either side in six positions; the "
+        "int/bool/str expressions, list indexing, division) plus an enumerated family of small control-flow skeletons, a naming family (every word of the grammar inside a name), every binary operator between two effectful calls (operand order), function-valued variables re-assigned inside nested blocks and `&&` / `||` between an effectful call and a boolean literal on either side in six positions; the "
         "oracle is an independent reference interpreter (lexical scoping, checked i32 arithmetic): stdout must equal the "
         "model's output exactly and the exit status must be 0, or - where the model prescribes a failure (assert, zero "
         "divisor, index range, overflow) - stdout must stop exactly there and the exit status be non-zero. Non-trivial = a "
@@ -382,9 +382,50 @@ def logic_literal_cases():
     return out
 
 
+def operand_order_cases():
+    """every binary operator between two calls WITH AN EFFECT (each prints its tag and bumps a counter the other one reads):
+    operands are evaluated left to right, whatever the operator is compiled to"""
+    V = lambda n: ("var", n)
+    S = lambda t: ("lit", "str", t)
+    out = []
+    nxt = ("decl", "nxt", None, ("fn", [("tag", "str")], "int", [("decl", "n", None, ("bin", "+", ("bin", "*", V("n"), I(2)), I(1)), ("modify",)), ("print", ("bin", "+", S("eval "), V("tag"))), ("return", V("n"))]), ())
+    call = lambda t: ("call", V("nxt"), [S(t)])
+    for op in ("+", "-", "*", "<", "<=", ">", ">=", "==", "!="):
+        e = ("bin", op, call("left"), call("right"))
+        e3 = ("bin", op, ("bin", "+", call("a"), call("b")), call("c")) if op in ("<", "<=", ">", ">=", "==", "!=") else ("bin", op, ("bin", op, call("a"), call("b")), call("c"))
+        for pname, st_ in (("print", [("print", e)]), ("if", [("if", e if op in ("<", "<=", ">", ">=", "==", "!=") else ("bin", ">", e, I(0)), [("print", S("then"))], [("print", S("else"))])]),
+                           ("assign", [("decl", "r", None, e, ()), ("print", V("r"))]), ("three", [("print", e3)]),
+                           ("in-function", [("decl", "w", None, ("fn", [], None, [("print", e)]), ()), ("expr", ("call", V("w"), []))])):
+            out.append({"stmts": [("decl", "n", None, I(0), ()), nxt] + st_ + [("print", V("n"))], "labels": ["operand-order:%s:%s" % (op, pname)], "nt": True})
+    return out
+
+
+def function_variable_cases():
+    """a variable that holds a FUNCTION is a variable like any other: re-assigned inside a nested block (if / else / while / from,
+    two deep, inside a function) it holds the new function after the block, for the owner and for a closure that reads it"""
+    V = lambda n: ("var", n)
+    FT = ("fn", ["int"], "int")
+    mk = lambda nm, op, k: ("decl", nm, None, ("fn", [("x", "int")], "int", [("return", ("bin", op, V("x"), I(k)))]), ())
+    out = []
+    for new_kind in ("named", "literal", "copy-of-copy"):
+        newv = {"named": V("dbl"), "literal": ("fn", [("x", "int")], "int", [("return", ("bin", "-", V("x"), I(100)))]), "copy-of-copy": V("alias")}[new_kind]
+        assign = [("decl", "cur", None, newv, ())]
+        wraps = {"same-level": assign, "if": [("if", ("bin", ">", V("sel"), I(0)), assign, None)], "else": [("if", ("bin", "<", V("sel"), I(0)), [("print", I(0))], assign)],
+                 "while": [("decl", "go", None, I(0), ()), ("while", ("bin", "<", V("go"), I(1)), [("decl", "go", None, ("bin", "+", V("go"), I(1)), ())] + assign)],
+                 "from": [("from", I(0), I(1), False, None, None, assign)], "two-deep": [("if", ("bin", ">", V("sel"), I(0)), [("from", I(0), I(1), False, None, None, assign)], None)]}
+        for wname, w in wraps.items():
+            core = [("decl", "cur", None, V("inc"), ()), ("decl", "reader", None, ("fn", [], "int", [("return", ("call", V("cur"), [I(7)]))]), ()), ("print", ("call", V("cur"), [I(3)]))] + w + \
+                   [("print", ("call", V("cur"), [I(3)])), ("print", ("call", V("reader"), [])), ("from", I(0), I(2), False, None, "q", [("print", ("call", V("cur"), [V("q")]))])]
+            head = [("decl", "sel", None, I(1), ()), mk("inc", "+", 1), mk("dbl", "*", 2), ("decl", "alias", None, V("dbl"), ())]
+            out.append({"stmts": head + core, "labels": ["function-variable:%s:%s:module" % (new_kind, wname)], "nt": True})
+            out.append({"stmts": head + [("decl", "run", None, ("fn", [], "int", core + [("return", ("call", V("cur"), [I(1)]))]), ()), ("print", ("call", V("run"), []))],
+                        "labels": ["function-variable:%s:%s:function" % (new_kind, wname)], "nt": True})
+    return out
+
+
 def enumerated(tier, seed):
     from .. import skeletons
-    cases = naming_cases() + logic_literal_cases()
+    cases = naming_cases() + logic_literal_cases() + operand_order_cases() + function_variable_cases()
     for desc, stmts in skeletons.all_skeletons(2 if tier == "quick" else 3):
         labels = ["skel:loop=" + desc["loop"], "skel:exit=" + desc["exit"] + ("@%d" % len(desc["wraps"])),
                   "skel:" + ("fn" if desc["in_fn"] else "module")]
